@@ -113,7 +113,9 @@ func nonNull(v *jr.Value, _ []byte) bool       { return v.K != jr.Null }
 func anyRoot(v *jr.Value, _ []byte) bool       { return true }
 
 // the array form of CreateMergePatch: both arguments arrays of objects of the same length
-func oneObjectArray(v *jr.Value, _ []byte) bool { return v.K == jr.Arr && len(v.A) == 1 && v.A[0].K == jr.Obj }
+func oneObjectArray(v *jr.Value, _ []byte) bool {
+	return v.K == jr.Arr && len(v.A) == 1 && v.A[0].K == jr.Obj
+}
 func objectsOrObject(v *jr.Value, _ []byte) bool {
 	if v.K == jr.Arr {
 		for _, e := range v.A {
